@@ -19,7 +19,9 @@ def run_case(s, ro_txt, kind, kw, mid=2, pretty=False, ctx=None, noise_rng=None)
     return s.step(ro, msg, ctx)
 
 
-HOSTILE_NAMES = ['S1', 's1', 'S1 ', '5" x 7\' card', 'S10', ' S1', 'S01', 'B"][itemID=\'B\'][itemID="B']
+HOSTILE_NAMES = ['NEWS,AM,S1', 'S1', 's1', 'S1 ', '5" x 7\' card', 'S10', ' S1', 'S01', 'B"][itemID=\'B\'][itemID="B',
+                 '{6B29FC40-CA47}']
+HOSTILE_UNKNOWN = 'SPORT,AM,S1'       # not in any running order, but its last component is
 
 
 def story_grid(s, nmax, layouts=LAYOUTS, pretties=(False, True), kmax=3, full=True, timed=(True,),
@@ -32,7 +34,8 @@ def story_grid(s, nmax, layouts=LAYOUTS, pretties=(False, True), kmax=3, full=Tr
             for pretty in pretties:
                 for tm in timed:
                     ro_txt = gen.grid_ro(S, layout, pretty, timed=tm)
-                    for kind, kw in gen.story_grid_messages(S, kmax=kmax, full=full):
+                    for kind, kw in gen.story_grid_messages(S, kmax=kmax, full=full,
+                                                            unk='ZZ-unknown' if names is STORY_NAMES else HOSTILE_UNKNOWN):
                         idx += 1
                         if not s.mine(idx):
                             continue
@@ -54,12 +57,16 @@ def item_grid(s, nmax, pretties=(False, True), kmax=3, full=True, inters=(False,
                     for k, nm in enumerate(names):
                         cnt = n if k == pos else 2
                         st = gen.simple_story(nm, cnt, item_prefix='i', inter=inter)
+                        if k != pos:
+                            st.append(B.item('only-elsewhere', 'an item ID the addressed story does not have'))
                         if item_names:
                             for el, newid in zip([c for c in st if c.tag == 'item'], item_names):
                                 el.find('itemID').text = newid
                         stories.append(st)
                     ro_txt = B.ro_doc('RO', 1, stories, ed_start='2020-01-01T12:30:00', pretty=pretty)
-                    for kind, kw in gen.item_grid_messages(names[pos], I, kmax=kmax, full=full):
+                    for kind, kw in gen.item_grid_messages(names[pos], I, kmax=kmax, full=full,
+                                                           unk=HOSTILE_UNKNOWN if item_names else 'zz-unknown',
+                                                           elsewhere='only-elsewhere'):
                         idx += 1
                         if not s.mine(idx):
                             continue
@@ -282,7 +289,9 @@ def make_collection(s, docs, how, allow_incomplete, tmpdir=None, names=None):
             bucket = 'bucket-%d' % _S3['n']
             f3.BUCKETS.pop(bucket, None)
             for k, d in enumerate(docs):
-                f3.put(bucket, 'pre/fix/%s' % (names[k] if names else 'k%03d.mos.xml' % k), d)
+                f3.put(bucket, 'pre/fix/%s' % (names[k] if names else
+                                               ['k%03d.mos.xml', 'k.%03d.v2.mos.xml', '22.31.%03d-msg.mos.xml',
+                                                'k+%03d %%2F.mos.xml'][(_S3['n'] + k) % 4] % k), d)
             f3.put(bucket, 'pre/fix/ignored.txt', 'not a mos file')
             f3.put(bucket, 'other/zzz.mos.xml', '<mos/>')
             f3.CONFIG['page_size'] = 1 + (_S3['n'] % 5)
